@@ -25,6 +25,8 @@ func c14(p *core.Prog, r *core.Report) {
 	c14Handler(p, r)
 	c14Relay(p, r)
 	c14Cancel(p, r)
+	// per-attempt deadlines propagate: the attempt's context, not the overall one, reaches the call
+	retryClosureUsesAttemptCtx(p, r, "C14-R1")
 	// the caller's own wait ends with its context: every blocking wait on the
 	// call path has a context arm (shared with C05-R1)
 	r.Rule("C14-R5", "E4c blocking/ctx", 8, "every blocking wait of a call ends with the caller's context (shared with C05)")
@@ -268,8 +270,12 @@ func c14Relay(p *core.Prog, r *core.Report) {
 }
 
 func c14Cancel(p *core.Prog, r *core.Report) {
-	// a handler's context is cancelled when its connection fails: write failures reach connectionError too
-	ioErrorsReachConnectionError(p, r, "C14-R4")
+	// a handler's context is cancelled when its connection fails: read and
+	// write failures reach connectionError, connectionError and protocolError
+	// stop both exchange sets, every exchange is notified (shared with C05-R2)
+	r.Alias("C05-R2", "C14-R4")
+	c05Failure(p, r)
+	r.Alias("C05-R2", "")
 	optGuard := func(i ssa.Instruction, field string, pol bool) bool {
 		return factsAt(i.Block()).hasBool(func(v ssa.Value) bool { fl := core.LoadedField(v); return fl != nil && fl.Name() == field }, pol)
 	}
